@@ -294,7 +294,7 @@ theorem parseIntField_fmtSeq (s : Int) (hs : s = -1 ∨ 0 ≤ s) : parseIntField
 
 /-- **one line**: what the instrument writes for a row is read back as that row, at its absolute time -/
 theorem parseLine_fmtLine (base : Int) (r : Row) (e : Extras) (h0 : 0 ≤ base + r.time)
-    (h1 : base + r.time < 253402300800000) (hs : r.seq = -1 ∨ 0 ≤ r.seq) (hl : r.spot.toList.length ≤ 16)
+    (h1 : base + r.time < 253402300800000) (hs : r.seq = -1 ∨ 0 ≤ r.seq) (hl : r.spot.toList.length ≤ 32)
     (hc : ∀ c ∈ r.spot.toList, c ≠ ',') (he : e.clean) :
     parseLine (fmtLine base r e) = some { r with time := base + r.time } := by
   unfold parseLine fmtLine
@@ -304,7 +304,7 @@ theorem parseLine_fmtLine (base : Int) (r : Row) (e : Extras) (h0 : 0 ≤ base +
     rw [stamp_roundtrip_core _ (by omega), parseIntField_fmtSeq _ hs, parseFixed4_fmtFixed4, parseFixed4_fmtFixed4]
     simp only [Option.bind_eq_bind, Option.bind_some, Option.pure_def]
     have ht : ((base + r.time).toNat : Int) = base + r.time := by omega
-    have hspot : String.ofList (r.spot.toList.take 16) = r.spot := by
+    have hspot : String.ofList (r.spot.toList.take 32) = r.spot := by
       rw [List.take_of_length_le hl, String.ofList_toList]
     have hon : ((if r.on then ['O', 'n'] else ['O', 'f', 'f']).take 3 == ['O', 'n']) = r.on := by
       cases r.on <;> decide
@@ -411,7 +411,7 @@ theorem sync_shift (b : Int) (rows : List Row) (sel : Option (List Int)) (ts : L
 
 theorem parseLog_renderLog (base : Int) (l : List (Row × Extras))
     (h : ∀ re ∈ l, 0 ≤ base + re.1.time ∧ base + re.1.time < 253402300800000 ∧ (re.1.seq = -1 ∨ 0 ≤ re.1.seq) ∧
-      re.1.spot.toList.length ≤ 16 ∧ (∀ c ∈ re.1.spot.toList, c ≠ ',') ∧ re.2.clean) :
+      re.1.spot.toList.length ≤ 32 ∧ (∀ c ∈ re.1.spot.toList, c ≠ ',') ∧ re.2.clean) :
     parseLog (renderLog base l) = some ((l.map (·.1)).map (shiftRow base)) := by
   unfold parseLog renderLog
   induction l with
@@ -424,7 +424,7 @@ theorem parseLog_renderLog (base : Int) (l : List (Row × Extras))
 
 theorem textHyp_spec (base : Int) (rows : List Row) (h : textHyp base rows = true) :
     ∀ r ∈ rows, 0 ≤ base + r.time ∧ base + r.time < 253402300800000 ∧ (r.seq = -1 ∨ 0 ≤ r.seq) ∧
-      r.spot.toList.length ≤ 16 ∧ (∀ c ∈ r.spot.toList, c ≠ ',') := by
+      r.spot.toList.length ≤ 32 ∧ (∀ c ∈ r.spot.toList, c ≠ ',') := by
   intro r hr
   unfold textHyp at h
   have := List.all_eq_true.mp h r hr
@@ -558,7 +558,7 @@ theorem rendered_row (a : Acq) (r : Row) (h : r ∈ (emitAll a).rows) :
       · simp at h; rcases h with h | h <;> subst h <;> rfl
 
 theorem rendered_textHyp (a : Acq) (base : Int) (hseq : ∀ p ∈ a.patterns, 0 ≤ p.seq)
-    (hspot : ∀ p ∈ a.patterns, p.spotL.length ≤ 16) (hb0 : 1 ≤ base)
+    (hspot : ∀ p ∈ a.patterns, p.spotL.length ≤ 32) (hb0 : 1 ≤ base)
     (hb1 : ∀ r ∈ (emitAll a).rows, base + r.time < 253402300800000) :
     textHyp base (emitAll a).rows = true := by
   unfold textHyp
